@@ -814,15 +814,32 @@ impl SvgElement {
                 width = Some(0.);
                 height = Some(0.);
             }
+            // (circles and ellipses are sized as `Position` accepts them: by either
+            // kind of radius, or by width / height)
             "circle" => {
-                if let Some(r) = self.attrs.get("r").map(|n| user_units(n)).transpose()?.flatten() {
-                    width = Some(r * 2.0);
-                    height = Some(r * 2.0);
+                let r = ["r", "rx", "ry"]
+                    .iter()
+                    .find_map(|a| self.attrs.get(*a))
+                    .map(|n| user_units(n))
+                    .transpose()?
+                    .flatten();
+                if let Some(d) = r.map(|r| r * 2.0).or(width).or(height) {
+                    width = Some(d);
+                    height = Some(d);
                 }
             }
             "ellipse" => {
-                let rx = self.attrs.get("rx").map(|n| user_units(n)).transpose()?.flatten();
-                let ry = self.attrs.get("ry").map(|n| user_units(n)).transpose()?.flatten();
+                let radius = |a: &str| -> Result<Option<f32>> {
+                    Ok(self
+                        .attrs
+                        .get(a)
+                        .or(self.attrs.get("r"))
+                        .map(|n| user_units(n))
+                        .transpose()?
+                        .flatten())
+                };
+                let rx = radius("rx")?;
+                let ry = radius("ry")?;
                 if let Some(rx) = rx {
                     width = Some(rx * 2.0);
                 }
@@ -840,6 +857,12 @@ impl SvgElement {
                 let y2 = self.attrs.get("y2").map(|n| user_units(n)).transpose()?.flatten();
                 if let (Some(y1), Some(y2)) = (y1, y2) {
                     height = Some((y2 - y1).abs());
+                }
+                // (a line given one length is horizontal or vertical)
+                match (width, height) {
+                    (Some(_), None) => height = Some(0.),
+                    (None, Some(_)) => width = Some(0.),
+                    _ => {}
                 }
             }
             _ => {}
